@@ -337,12 +337,43 @@ def check(ctx):
         if len(names) == 1 and len(lits) == 1:
             return lits[0].strip("'")
         return None
+    def is_policy_name(text):
+        return text.endswith('policy') or any(
+            ".get('policy')" in N.txt(v) for v in defs.get(text, []))
+
+    def policy_domain(atoms):
+        """Values the policy can still have under the facts: equality,
+        inequality and membership tests against literals narrow
+        {fifo, lifo, <anything else>}."""
+        dom = {'fifo', 'lifo', '*'}
+        for atom in atoms:
+            key = atom.key
+            if key[0] == 'cmp' and key[1] in ('==', '!=') and \
+                    len(key[2]) == 2:
+                terms = [t for t, _c in key[2]]
+                names = [t for t in terms if is_policy_name(t)]
+                lits = [t.strip("'") for t in terms if t.startswith("'")]
+                if len(names) == 1 and len(lits) == 1:
+                    if key[1] == '==':
+                        dom &= {lits[0]}
+                    else:
+                        dom -= {lits[0]}
+            elif key[0] == 'in' and is_policy_name(key[1]):
+                try:
+                    vals = ast.literal_eval(key[2])
+                except (ValueError, SyntaxError):
+                    continue
+                vals = set(v for v in vals if isinstance(v, str))
+                if key[3]:
+                    dom &= vals
+                else:
+                    dom -= vals
+        return dom
     seen = set()
     for node in extra_defs:
         sl = node.ast.value.slice
-        policy = None
-        for fact in facts[node]:
-            policy = policy_of(fact) or policy
+        dom = policy_domain(facts[node])
+        policy = sorted(dom)[0] if len(dom) == 1 else None
         ok = False
 
         lin = res.lin
@@ -369,9 +400,8 @@ def check(ctx):
     dloop = K.enclosing_for(graph, dnode)
     unknown = K.find_path_cp(
         graph, dloop, [dnode], cut_node=lambda n: n is dloop,
-        cut_edge=lambda e: e.kind == 'exc' or any(
-            policy_of(a) in ('fifo', 'lifo')
-            for a in nz.facts_of_edge(e)),
+        cut_edge=lambda e: e.kind == 'exc' or
+        '*' not in policy_domain(nz.facts_of_edge(e)),
         follow_exc=False) if dloop is not None else []
     ctx.ob('C20.4', func, dnode, unknown is None,
            'an unknown policy issues no delete request',
@@ -520,21 +550,27 @@ def check(ctx):
     writes = [n for n in dgraph.nodes if n.kind == 'stmt' and
               isinstance(n.ast, ast.Assign) and
               "['monitors']" in N.txt(n.ast.targets[0])]
-    gone = []
-    for test in [n for n in dgraph.nodes if n.kind == 'test']:
-        for edge in test.succ:
-            for atom in dnz.facts_of_edge(edge):
-                key = atom.key
-                if key[0] == 'cmp' and key[1] == '==' and \
-                        "'DELETED'" in [t for t, _c in key[2]]:
-                    gone.append(('deleted', edge))
-                if key[0] == 'is' and key[3] and key[2] == 'None' and \
-                        key[1] == dw[0].params()[1]:
-                    gone.append(('no stat', edge))
-    ok = bool(writes) and {'deleted', 'no stat'} <= set(
-        k for k, _e in gone) and not any(
-            w in K.cut_reach(dgraph, e.dst, follow_exc=False)
-            for _k, e in gone for w in writes)
+    statp = dw[0].params()[1]
+    eventp = dw[0].params()[2] if len(dw[0].params()) > 2 else None
+
+    def stat_present(atom):
+        key = atom.key
+        return key[0] == 'is' and not key[3] and key[2] == 'None' and \
+            key[1] == statp
+
+    def not_a_deletion(atom):
+        key = atom.key
+        if key[0] == 'cmp' and key[1] == '!=' and \
+                "'DELETED'" in [t for t, _c in key[2]]:
+            return True
+        return key[0] == 'is' and key[3] and key[2] == 'None' and \
+            key[1] == eventp
+    # every path to the write has established both (tests taken apart by
+    # the CFG; a named boolean gathering the two cases is followed)
+    leak = K.unestablished_path(dgraph, writes, {
+        'stat present': stat_present, 'not a deletion': not_a_deletion}) \
+        if writes else None
+    ok = bool(writes) and leak is None
     ctx.ob('C20.6', dw[0], None, ok,
            'a deleted monitor stops being reconfigured',
            construct='deleted monitor')
